@@ -199,9 +199,9 @@ def c10(out):
                 "later outputs unchanged (also after a later tweak change, against a twin object). CTR and parallel entry points on every back end. Huge lengths include values that wrap into the legal range when "
                 "scaled by 2..32 modulo 2^32. The three example tools are swept over every key length 1..max+3 for both block sizes with -k before and after -b. distinct = distinct (entry, length, key bytes).")
     out.exhaustive = False
-    v = [("prod", n(out, 12000, 400000)), ("asan", n(out, 6000, 60000)), ("msan", n(out, 4000, 40000))]
+    v = [("prod", n(out, 12000, 400000)), ("asan", n(out, 6000, 60000)), ("msan", n(out, 4000, 40000)), ("prod+W32", n(out, 4000, 60000)), ("clang+W32+NEUTRAL", n(out, 3000, 60000))]
     if out.tier == "thorough":
-        v += [("clang", 60000), ("prod+W32", 60000), ("prod+NEUTRAL", 60000), ("prod+O0", 20000)]
+        v += [("clang", 60000), ("prod+NEUTRAL", 60000), ("prod+O0", 20000), ("prod+W32+UNAL0", 20000), ("clang+Os+W32", 20000)]
     for vname, cases in v:
         exe = build_driver("drv_keys", ["drv_keys.c"] + HIST, vname)
         run_sharded(out, exe, ["--prop", "C10", "--mode", "c10"], vname, cases)
@@ -442,15 +442,15 @@ def c11(out):
 # --------------------------------------------------------------------- C13
 @check("C13")
 def c13(out):
-    out.rule = ("case index -> (init function of six, emulated CPU model of nine incl. two where XGETBV is emulated by single-stepping (XCR0=3, XCR0=1) and an SSE2-only K8-class CPU, trapped x4 / real CPUID x1); in each case the init is called 24 times through an assembly trampoline with rcx, rdx, rsi, r8-r11, rbx, rax "
+    out.rule = ("case index -> (init function of six, emulated CPU model of eleven incl. two where XGETBV is emulated by single-stepping (XCR0=3, XCR0=1) and an SSE2-only K8-class CPU, trapped x4 / real CPUID x1); in each case the init is called 24 times through an assembly trampoline with rcx, rdx, rsi, r8-r11, rbx, rax "
                 "set to 0,1,2,3,7,0x100,0xdeadbeef,~0 and random values, handle pre-filled 0x00/0xCC, stack painted; every CPUID executed is trapped (arch_prctl ARCH_SET_CPUID) and logged with its leaf and sub-leaf register; "
                 "oracle: selected back end (from the handle) == widest back end compiled in and supported by the served CPUID table + real XCR0, identical on every call, leaf-7 sub-leaf register independent of the "
                 "calling context, parallel_size behaves as the selected back end's batch; for CPU/OS models without usable AVX a whole object life cycle is single-stepped (EFLAGS.TF) and no VEX/EVEX-encoded instruction may execute in library code; on the SSE2-only model no SSE3/SSSE3/SSE4/POPCNT-class instruction either (opcode maps 0F38/0F3A etc.); inits on models with OSXSAVE clear are single-stepped and must not execute XGETBV. distinct = distinct (init, model, register context).")
-    builds = [("prod", 1, 1, n(out, 1080, 27000))]
+    builds = [("prod", 1, 1, n(out, 1320, 33000))]
     if out.tier == "thorough":
         builds += [("clang", 1, 1, 3600), ("prod+O0", 1, 1, 3600), ("prod+NOAVX2", 1, 0, 1800), ("prod+NOSIMD", 0, 0, 1800), ("clang+O1", 1, 1, 1800), ("prod+O1", 1, 1, 1800)]
     else:
-        builds += [("prod+O0", 1, 1, 540), ("clang", 1, 1, 540), ("prod+NOSIMD", 0, 0, 270)]
+        builds += [("prod+O0", 1, 1, 660), ("clang", 1, 1, 660), ("prod+NOSIMD", 0, 0, 330)]
     for vname, h128, h256, cases in builds:
         exe = build_driver("drv_cpuid", ["drv_cpuid.c"] + HIST, vname)
         run_sharded(out, exe, ["--has128", str(h128), "--has256", str(h256)], vname, cases)
